@@ -205,6 +205,7 @@ def main(tier, replay=None):
                 "probe-failed-one-reclaimable-slot": "a legitimate handshake does not succeed with exactly one reclaimable session slot",
                 "no-output": "the implementation produced no result line (crash or hang of the harness process)",
                 "no-result": "the implementation run ended without a snapshot (panic or hang)",
+                "rx-buffer-never-freed": "after traffic stopped and the time-outs ran, the single RX buffer still holds a message nobody will fetch: nothing is received any more (no Busy answers, no evictions, no handshakes)",
                 "unreadable-output": "the implementation's output line for this case cannot be read (panic, hang or truncated output)",
                 "dropped-exchange-never-swept": "after the dropped-exchange sweeper ran until it found nothing to do, an exchange slot is still in the Dropped state: the slot, and with it its session (a session with an exchange is never evicted), is lost for good",
             }.get(name, name)
